@@ -129,7 +129,16 @@ func Lt(t *Thread, x, y Value) (bool, error) {
 	return false, compareError(x, y)
 }
 
+// twoTo63 is 2^63 as a float64: the smallest float64 that is greater than
+// every int64.
+const twoTo63 = float64(1 << 63)
+
 func ltIntAndFloat(n int64, f float64) bool {
+	if f >= twoTo63 {
+		// f is above every int64 (int64(f) would be out of range and
+		// float64(n) may round up to 2^63).
+		return true
+	}
 	nf := int64(f)
 	if float64(nf) == f {
 		return n < nf
@@ -154,6 +163,11 @@ func leIntAndFloat(n int64, f float64) bool {
 }
 
 func leFloatAndInt(f float64, n int64) bool {
+	if f >= twoTo63 {
+		// f is above every int64 (int64(f) would be out of range and
+		// float64(n) may round up to 2^63).
+		return false
+	}
 	nf := int64(f)
 	if float64(nf) == f {
 		return nf <= n
